@@ -244,6 +244,7 @@ def run(rep, ctx):
     rep.rule("R03.3", "two clusters are merged exactly when their shared-atom fraction exceeds the caller's merge_threshold; the larger cluster's species survive")
     with rep.guard("R03.3"):
         r03_3(rep, M, "R03.3")
+        merged_not_kept_twice(rep, M, "R03.3")
     rep.rule("R03.4", "a merge keeps only atoms whose element is in the species of the merged cluster (shared with C01)")
     with rep.guard("R03.4"):
         c01.r01_7(rep, M, "R03.4")
@@ -308,3 +309,27 @@ META = {
     "note": "trusted: CPython ast; the rules shared with C01/C13/C16 are the same code run under this property's rule ids.",
     "technique": "guard-polarity and provenance rules on the CFG + path classification of the matching loop + running-maximum idiom recognition",
 }
+
+
+# ----------------------------------------------------------------------------- a merged component is not kept a second time
+def merged_not_kept_twice(rep, M, rid):
+    """_merge_clusters: a component is kept as it is exactly when it was not merged: the flag that guards `isolated_clusters.append(i_cluster)` starts True for
+    every component and is lowered in the branch that appends the merged cluster"""
+    fq = SBC + "._merge_clusters"
+    fn = M.func(fq)
+    keep = [t for t in ast.walk(fn) if isinstance(t, ast.If) and isinstance(t.test, ast.Name) and not t.orelse
+            and any(isinstance(c, ast.Call) and isinstance(c.func, ast.Attribute) and c.func.attr == "append" for s in t.body for c in ast.walk(s))]
+    merges = [c for c in M.own_nodes(fq) if isinstance(c, ast.Call) and isinstance(c.func, ast.Name) and c.func.id == "merge"]
+    if not keep or not merges:
+        raise AnalysisError("_merge_clusters: the flag-guarded keep of an unmerged component / the merge call was not recognised")
+    flag = keep[0].test.id
+    sets = [s for s in ast.walk(fn) if isinstance(s, ast.Assign) and isinstance(s.targets[0], ast.Name) and s.targets[0].id == flag and isinstance(s.value, ast.Constant)]
+    mbranch = next((t for t in ast.walk(fn) if isinstance(t, ast.If) and any(x is merges[0] for s in t.body for x in ast.walk(s))), None)
+    in_merge = [s for s in sets if mbranch is not None and any(s is x for b in mbranch.body for x in ast.walk(b))]
+    outside = [s for s in sets if s not in in_merge]
+    if in_merge and all(s.value.value is False for s in in_merge) and outside and all(s.value.value is True for s in outside):
+        rep.ok(rid, f"_merge_clusters: `{flag}` starts True for every component and is lowered when the component is merged")
+    else:
+        rep.violation(rid, f"_merge_clusters: flag `{flag}`", f"initial value(s) {[s.value.value for s in outside]}, in the merge branch {[s.value.value for s in in_merge]}; required "
+                      "True initially and False after a merge: otherwise a merged component is also kept on its own (its atoms appear in two clusters until localisation "
+                      "tears them apart) or unmerged components are dropped", M.where(fq, keep[0]))
